@@ -329,6 +329,7 @@ def run(prog, rep, tier):
     if not ins_ or not fl_:
         raise CheckerError("find_sysline_in_block_year: insert_sysline (%d) / find_line_in_block (%d) not found" % (len(ins_), len(fl_)))
     eof_sw = set()
+    eof_non = {}
     for bb in sorted(fb_.live):
         t = fb_.term(bb)
         if t[0] == "switch":
@@ -346,6 +347,26 @@ def run(prog, rep, tier):
                                     srcs.add(o2[2].split("::")[-1])
             if srcs & set(EOFK):
                 eof_sw.add(bb)
+                # which way out of this test means "NOT at the end of the file"?
+                non_eof = None
+                arms0 = [tb for v_, tb in t[2] if v_ == 0]
+                dl_ = op_local(t[1])
+                bins_ = [st_ for st_ in fb_.stmts(bb) if st_[0] == "=" and st_[1] == [dl_] and st_[2][0] == "bin"]
+                if bins_ and arms0:
+                    rv_ = bins_[0][2]
+                    def _is_eof(a_):
+                        return a_[0] != "k" and any(o2[0] == "call" and o2[2].split("::")[-1] in EOFK for o2 in fb_.origins(a_))
+                    l_eof, r_eof = _is_eof(rv_[2]), _is_eof(rv_[3])
+                    rel_ = rv_[1]
+                    if l_eof and not r_eof:
+                        rel_ = {"Lt": "Gt", "Gt": "Lt", "Le": "Ge", "Ge": "Le"}.get(rel_, rel_)
+                    if l_eof != r_eof:
+                        if rel_ in ("Lt", "Ne"):       # position < end : true = not at the end
+                            non_eof = t[3]
+                        elif rel_ in ("Ge", "Gt", "Eq"):  # position >= end : false = not at the end
+                            non_eof = arms0[0]
+                if non_eof is not None:
+                    eof_non[bb] = non_eof
     n29 = 0
     for c in fl_:
         # Done arm of `match result_.0`
@@ -374,6 +395,18 @@ def run(prog, rep, tier):
         if unguarded:
             rep.violation(R29, inst, "find_sysline_in_block_year: after the block-bounded line search returns Done (line %d) the message can be stored (insert_sysline, line %d) without any comparison against the end of the file; "
                           "a message that continues in the next block is then stored truncated" % (c.line, unguarded[0].line))
+        # ... and the store lies on the at-end-of-file side of that comparison: leaving an end-of-file test
+        # by its "not at the end" edge must not lead to the store within the same round (a second conjunct
+        # such as `&& block_index != 0` re-opens the way: the message is kept although the file goes on)
+        for e_ in sorted(eof_sw & set(fb_.reachable(done_t))):
+            ne_ = eof_non.get(e_)
+            if ne_ is None:
+                continue
+            leak = [i_ for i_ in stores if i_.bb in fb_.reachable(ne_, {c.bb})]
+            rep.examined(R29, inst + "|eof-side@%s" % fb_.blocks[e_].get("l"), sample={"end_of_file_test_line": fb_.blocks[e_].get("l"), "store_reachable_from_the_not_at_end_edge": [i_.line for i_ in leak]})
+            if leak:
+                rep.violation(R29, inst + "|not-at-eof-side", "find_sysline_in_block_year: after the block-bounded line search returns Done (line %d) the message can be stored (insert_sysline, line %d) although the comparison with the end of the file (line %s) "
+                              "found that the file goes on; a message whose later lines lie in the next block is stored without them (lines lost at that --blocksz, printed at any other)" % (c.line, leak[0].line, fb_.blocks[e_].get("l")))
     if n29 == 0:
         raise CheckerError("R2.9: no Done arm from which a message is stored (idiom not recognised)")
 
